@@ -3,6 +3,7 @@ compute an expected value; reference models live in refmodel.py."""
 import math
 
 import numpy as np
+import pandas as pd
 
 NODE_KEYS = ['head', 'demand', 'pressure', 'leak_demand']
 LINK_KEYS = ['flowrate', 'velocity', 'status', 'setting']
@@ -38,6 +39,10 @@ def tables_wellformed(res, scn, expect_times=None, accepted_times=None):
                 out.append(V('tables.key_missing', grp + '.' + k, 'missing table'))
                 continue
             df = tabs[k]
+            if not isinstance(df, pd.DataFrame):
+                # what run_sim hands back is not a table at all (e.g. the raw accumulator of a run that saved no row)
+                out.append(V('tables.not_a_table', grp + '.' + k, 'results.%s[%r] is a %s, not a DataFrame' % (grp, k, type(df).__name__)))
+                continue
             idx = [x for x in df.index]
             if idx0 is None:
                 idx0 = idx
